@@ -262,7 +262,7 @@ fn beh_parse(v: &Value) -> Beh {
         _ => Beh::Responsive,
     }
 }
-fn cfg_json(c: &Cfg) -> Value {
+pub fn cfg_json(c: &Cfg) -> Value {
     json!({"v6":c.v6,"read_only":c.read_only,"contacts":c.contacts.iter().map(beh_json).collect::<Vec<_>>(),"nodes":c.nodes,"routers":c.routers,"bad_routers":c.bad_routers,"twin_ids":c.twin_ids,"cancelled_waiters":c.cancelled_waiters.iter().map(|(a,b)| json!([a,b])).collect::<Vec<_>>(),"waiters":c.waiters,"horizon_ms":c.horizon_ms,"latency":c.latency,"send_delay_ms":c.send_delay_ms,"poll_state":c.poll_state.map(|(a,b)| json!([a,b])),"rng_seed":c.rng_seed})
 }
 fn cfg_parse(v: &Value) -> Cfg {
